@@ -1132,6 +1132,14 @@ class MqttTransport(_FullTransport, _MqttTransportAbstractor):
             _LOGGER.warning("%s < Cant decode JSON (ignoring)", msg.payload)
             return
 
+        if not (
+            isinstance(payload, dict)
+            and isinstance(payload.get("msg"), str)
+            and isinstance(payload.get("ts"), str)
+        ):
+            _LOGGER.warning("%s < Not a gateway message (ignoring)", msg.payload)
+            return
+
         # HACK: hotfix for converting RAMSES_ESP dtm into local/naive dtm
         dtm = dt.fromisoformat(payload["ts"])
         if dtm.tzinfo is not None:
